@@ -387,7 +387,7 @@ class Tracker:
             if isinstance(node, ast.Call) and isinstance(node.func, ast.Attribute) and isinstance(node.func.value, ast.Name) and node.func.value.id == name \
                     and node.func.attr == "append" and node.args and isinstance(node.args[0], ast.Name):
                 hows = self.sc.defs.get(node.args[0].id, [])
-                if any(h[0] == "iter" for h in hows):
+                if any(h[0] == "iter" or (h[0] == "elt" and h[1][0] == "iter" and h[2] == 0) for h in hows):
                     return True
         return False
 
